@@ -4,6 +4,7 @@ import ArimProofs.Lemmas.Das
 import Mathlib.Data.Rat.Floor
 import Mathlib.Tactic.NormNum.Basic
 import Mathlib.Analysis.InnerProductSpace.Basic
+import Mathlib.Analysis.Complex.Basic
 /-! # C02 — delay-and-sum image equals its mathematical definition -/
 namespace Arim.C02
 open Arim.Das
@@ -850,5 +851,132 @@ example : interpLanczos (stdOps (fun x : ℚ => if x = 0 then 1 else 0)) stdData
     (exProblem.g 0) 2 = some 3 := by decide +kernel
 
 end Examples
+
+/-! ## On the source: the kernels of the robust aggregations as translated from `arim/im/huber.py` and `arim/im/geomed.py` -/
+section OnSourceRobust
+
+/-- the routines of the translated robust kernels at `K = ℝ` -/
+noncomputable def robustOps : Src.Ops ℝ :=
+  { sin := id, cos := id, asin := id, sqrt := Real.sqrt, exp := id, sinc := id,
+    pi := 0, ofNat := fun n => (n : ℝ), ofInt := fun z => (z : ℝ),
+    floor := fun x => ⌊x⌋, round := fun x => round x, trunc := fun x => ⌊x⌋ }
+
+/-- row `i` of the `(n, 2)` array handed to `geomed` / `huber_m_estimate`, as the complex sample it is a view of -/
+def smp (data : Nat → Nat → ℝ) (i : Nat) : ℂ := ⟨data i 0, data i 1⟩
+
+/-- a left fold over `range n` whose state after `k` steps is known in closed form -/
+theorem foldl_range_closed {σ : Type*} (step : σ → ℕ → σ) (init : σ) (P : ℕ → σ) (h0 : P 0 = init)
+    (hs : ∀ k, step (P k) k = P (k + 1)) (n : ℕ) : (List.range n).foldl step init = P n := by
+  induction n with
+  | zero => simp [h0]
+  | succ m ih => rw [List.range_succ, List.foldl_append, ih]; simp [hs]
+
+theorem norm_smp_sub (data : Nat → Nat → ℝ) (x y : ℝ) (i : Nat) :
+    ‖(⟨x, y⟩ : ℂ) - smp data i‖ = Real.sqrt ((x - data i 0) * (x - data i 0) + (y - data i 1) * (y - data i 1)) := by
+  rw [Complex.norm_def, Complex.normSq_apply]; simp [smp]
+
+theorem pyMin_eq_min (a b : ℝ) : Src.pyMin a b = min a b := by
+  unfold Src.pyMin
+  split_ifs with h
+  · exact (min_eq_right h.le).symm
+  · exact (min_eq_left (not_lt.mp h)).symm
+
+/-- **tie**: one step of `_huber_iter` as translated from the source is the reweighting step `huberIter` of the theorems,
+on the complex samples the `(n, 2)` array is a view of -/
+theorem src_huber_iter_eq (data : Nat → Nat → ℝ) (n : Nat) (τ x0 y0 : ℝ) :
+    Src.huber_iter robustOps data n τ x0 y0 =
+      ((huberIter (Finset.range n) (smp data) τ (⟨x0, y0⟩ : ℂ)).re, (huberIter (Finset.range n) (smp data) τ (⟨x0, y0⟩ : ℂ)).im) := by
+  unfold Src.huber_iter
+  dsimp only
+  rw [foldl_range_closed _ _ (fun k => (∑ i ∈ Finset.range k, huberW τ ‖(⟨x0, y0⟩ : ℂ) - smp data i‖,
+      ∑ i ∈ Finset.range k, data i 0 * huberW τ ‖(⟨x0, y0⟩ : ℂ) - smp data i‖,
+      ∑ i ∈ Finset.range k, data i 1 * huberW τ ‖(⟨x0, y0⟩ : ℂ) - smp data i‖))]
+  · simp only [huberIter, robustOps, Nat.cast_one]
+    have hre : (∑ i ∈ Finset.range n, huberW τ ‖(⟨x0, y0⟩ : ℂ) - smp data i‖ • smp data i).re
+        = ∑ i ∈ Finset.range n, data i 0 * huberW τ ‖(⟨x0, y0⟩ : ℂ) - smp data i‖ := by
+      rw [Complex.re_sum]; refine Finset.sum_congr rfl (fun i _ => ?_); simp [smp, mul_comm]
+    have him : (∑ i ∈ Finset.range n, huberW τ ‖(⟨x0, y0⟩ : ℂ) - smp data i‖ • smp data i).im
+        = ∑ i ∈ Finset.range n, data i 1 * huberW τ ‖(⟨x0, y0⟩ : ℂ) - smp data i‖ := by
+      rw [Complex.im_sum]; refine Finset.sum_congr rfl (fun i _ => ?_); simp [smp, mul_comm]
+    simp only [Complex.real_smul] at hre him
+    simp only [Complex.real_smul, Complex.mul_re, Complex.mul_im, Complex.ofReal_re, Complex.ofReal_im, zero_mul, sub_zero, add_zero]
+    rw [hre, him]
+    refine Prod.ext ?_ ?_ <;> simp only [one_div] <;> ring
+  · simp [robustOps]
+  · intro k
+    simp only [Finset.sum_range_succ, robustOps, Nat.cast_one, pyMin_eq_min, huberW, norm_smp_sub]
+
+/-- **a fixed point of the translated `_huber_iter` is the Huber location of the delayed samples**: if one more step of
+the source's iteration returns the iterate itself (what `huber_m_estimate` iterates towards: it stops when the update is
+below `xtol`), the iterate minimises the Huber objective over all of ℂ -/
+theorem src_huber_fixed_point_optimal (data : Nat → Nat → ℝ) (n : Nat) (τ x0 y0 : ℝ) (hτ : 0 ≤ τ)
+    (hW : ∑ i ∈ Finset.range n, huberW τ ‖(⟨x0, y0⟩ : ℂ) - smp data i‖ ≠ 0)
+    (hfix : Src.huber_iter robustOps data n τ x0 y0 = (x0, y0)) (w : ℂ) :
+    ∑ i ∈ Finset.range n, huberRho τ ‖(⟨x0, y0⟩ : ℂ) - smp data i‖ ≤ ∑ i ∈ Finset.range n, huberRho τ ‖w - smp data i‖ := by
+  rw [src_huber_iter_eq] at hfix
+  have h : huberIter (Finset.range n) (smp data) τ (⟨x0, y0⟩ : ℂ) = ⟨x0, y0⟩ :=
+    Complex.ext (congrArg Prod.fst hfix) (congrArg Prod.snd hfix)
+  exact huber_fixed_point_optimal (Finset.range n) (smp data) τ hτ _ w hW h
+
+/-- **tie**: `_f` as translated from the source is the sum of the distances to the samples (the objective of `geomed`) -/
+theorem src_geomed_f_eq (data : Nat → Nat → ℝ) (n : Nat) (z : Nat → ℝ) :
+    Src.geomed_f robustOps data n z = ∑ i ∈ Finset.range n, ‖(⟨z 0, z 1⟩ : ℂ) - smp data i‖ := by
+  unfold Src.geomed_f
+  dsimp only
+  rw [foldl_range_closed _ _ (fun k => ∑ i ∈ Finset.range k, ‖(⟨z 0, z 1⟩ : ℂ) - smp data i‖)]
+  · simp [robustOps]
+  · intro k
+    simp only [Finset.sum_range_succ, robustOps, norm_smp_sub]
+
+/-- **tie**: the first two outputs of `_gradf_and_inv_hessf` as translated from the source are the real and imaginary
+parts of the sum of the unit vectors from the samples to `z` (the gradient of the objective) -/
+theorem src_geomed_grad_eq (data : Nat → Nat → ℝ) (n : Nat) (z : Nat → ℝ) :
+    ((Src.geomed_gradf_and_inv_hessf robustOps data n z).1, (Src.geomed_gradf_and_inv_hessf robustOps data n z).2.1) =
+      ((∑ i ∈ Finset.range n, (‖(⟨z 0, z 1⟩ : ℂ) - smp data i‖⁻¹) • ((⟨z 0, z 1⟩ : ℂ) - smp data i)).re,
+       (∑ i ∈ Finset.range n, (‖(⟨z 0, z 1⟩ : ℂ) - smp data i‖⁻¹) • ((⟨z 0, z 1⟩ : ℂ) - smp data i)).im) := by
+  unfold Src.geomed_gradf_and_inv_hessf
+  dsimp only
+  set r : ℕ → ℝ := fun i => ‖(⟨z 0, z 1⟩ : ℂ) - smp data i‖ with hr
+  rw [foldl_range_closed _ _ (fun k => (∑ i ∈ Finset.range k, 1 / r i * (z 0 - data i 0), ∑ i ∈ Finset.range k, 1 / r i * (z 1 - data i 1),
+      ∑ i ∈ Finset.range k, (1 / r i - 1 / r i * (1 / r i) * (1 / r i) * ((z 0 - data i 0) * (z 0 - data i 0))),
+      -∑ i ∈ Finset.range k, (z 0 - data i 0) * (z 1 - data i 1) * (1 / r i * (1 / r i) * (1 / r i)),
+      ∑ i ∈ Finset.range k, (1 / r i - 1 / r i * (1 / r i) * (1 / r i) * ((z 1 - data i 1) * (z 1 - data i 1)))))]
+  · simp only [Complex.re_sum, Complex.im_sum]
+    refine Prod.ext ?_ ?_
+    · show (∑ i ∈ Finset.range n, 1 / r i * (z 0 - data i 0)) = _
+      refine Finset.sum_congr rfl (fun i _ => ?_); simp [smp, hr]
+    · show (∑ i ∈ Finset.range n, 1 / r i * (z 1 - data i 1)) = _
+      refine Finset.sum_congr rfl (fun i _ => ?_); simp [smp, hr]
+  · simp [robustOps]
+  · intro k
+    simp only [Finset.sum_range_succ, robustOps, Nat.cast_one, hr, norm_smp_sub]
+    refine Prod.ext rfl (Prod.ext rfl (Prod.ext rfl (Prod.ext ?_ rfl)))
+    simp only []
+    ring
+
+/-- **certificate of `geomed` on the source's own quantities**: if the iterate `z` is none of the samples and the gradient
+the source computes at `z` has Euclidean norm at most `ε` (the Newton iteration drives it to zero), then the objective the
+source computes at `z` exceeds its value at any other point `w` by at most `ε‖w − z‖` — for `ε = 0`, `z` is the geometric
+median of the delayed samples -/
+theorem src_geomed_certificate (data : Nat → Nat → ℝ) (n : Nat) (z w : Nat → ℝ) (ε : ℝ)
+    (hz : ∀ i < n, (⟨z 0, z 1⟩ : ℂ) ≠ smp data i)
+    (hgrad : Real.sqrt ((Src.geomed_gradf_and_inv_hessf robustOps data n z).1 ^ 2
+        + (Src.geomed_gradf_and_inv_hessf robustOps data n z).2.1 ^ 2) ≤ ε) :
+    Src.geomed_f robustOps data n z ≤ Src.geomed_f robustOps data n w + ε * ‖(⟨w 0, w 1⟩ : ℂ) - ⟨z 0, z 1⟩‖ := by
+  rw [src_geomed_f_eq, src_geomed_f_eq]
+  refine geomed_optimal (Finset.range n) (smp data) _ _ ε (fun i hi => hz i (Finset.mem_range.mp hi)) ?_
+  have h := src_geomed_grad_eq data n z
+  have h1 := (Prod.ext_iff.mp h).1
+  have h2 := (Prod.ext_iff.mp h).2
+  simp only at h1 h2
+  rw [Complex.norm_def, Complex.normSq_apply, ← h1, ← h2]
+  simpa [sq] using hgrad
+
+/-- non-vacuity: two samples `±1`, iterate `0`: one translated step returns `0` (a fixed point, weights `min(1, τ/1)`) -/
+example : Src.huber_iter robustOps (fun i j => if j = 0 then (if i = 0 then 1 else -1) else 0) 2 (1 / 2) 0 0 = (0, 0) := by
+  simp [Src.huber_iter, robustOps, Src.pyMin, List.range_succ]
+  norm_num
+
+end OnSourceRobust
 
 end Arim.C02
